@@ -173,6 +173,9 @@ theorem delE_inv {m : KV} {f : List String} {a b : AG} (h : Inv m f a) (g eid : 
     · simp at hr'
     · rw [keep _ (by simp) (by simp) (by simp), keep _ (by simp) (by simp) (by simp)]
       exact h.eindex g' id r' hr'
+  · intro f' hf'
+    rw [keep _ (by simp) (by simp) (by simp)] at hf'
+    rw [hbg]; exact h.fieldOwner f' hf'
 
 theorem hasGraph_iff {s : KState} {a : AG} (h : Refines s a) (g : String) :
     hasGraph s g = a.graphs.contains g := by
@@ -432,6 +435,9 @@ theorem delV_inv {m : KV} {f : List String} {a b : AG} (h : Inv m f a) (g id : S
     rw [e2] at hr
     rw [get_delV h, get_delV h]; simp only [delVKey, Bool.false_eq_true, ↓reduceIte]
     exact h.eindex g' eid r (Option.filter_eq_some_iff.1 hr).1
+  · intro f' hf'
+    rw [get_delV h] at hf'; simp only [delVKey, Bool.false_eq_true, ↓reduceIte] at hf'
+    rw [hbg]; exact h.fieldOwner f' hf'
 
 theorem specStep_delV (a : AG) (g id : String) :
     specStep a (.delV g id) =
